@@ -72,9 +72,174 @@ def _const_bool(node, what):
     raise ValueError("unrecognised %s: %s" % (what, ast.dump(node)))
 
 
+class _Obj:
+    """a value a local name can be bound to during the symbolic run of a wrapper body"""
+    def __init__(self, init):
+        self.init = init            # normalised source text of the defining expression (locals inlined)
+        self.stores = []            # [(sequence number, index text, value text or ast node)]
+
+
+def _norm(text):
+    return ast.unparse(ast.parse(text, mode="eval"))
+
+
+class _WrapperRun:
+    """Symbolic evaluation of one wrapper body for one scenario (mask is None / mask is given): an environment of
+    locals, `if` on the mask decided by the scenario (so an early return is the same as if/else), pure locals inlined
+    into the expressions that use them, in-place stores recorded per object.  Anything it does not understand raises
+    (fail closed)."""
+
+    def __init__(self, fdef, masked):
+        self.f = fdef
+        self.masked = masked
+        self.env = {}
+        for a in fdef.args.args:
+            self.env[a.arg] = _Obj(a.arg)
+        self.seq = 0
+        self.calls = []             # (sequence number, argument object, table name, border, mode)
+        self.ret = None
+
+    def text(self, node):
+        """source text of an expression with pure locals replaced by their definitions"""
+        run = self
+
+        class Inl(ast.NodeTransformer):
+            def visit_Name(self, n):
+                o = run.env.get(n.id)
+                if o is None:
+                    return n
+                if o.stores:
+                    raise ValueError("%s: %s is modified in place and then used inside an expression" % (run.f.name, n.id))
+                return ast.parse("(" + o.init + ")", mode="eval").body
+        import copy
+        return _norm(ast.unparse(Inl().visit(copy.deepcopy(node))))
+
+    def cond(self, node):
+        if isinstance(node, ast.UnaryOp) and isinstance(node.op, ast.Not):
+            return not self.cond(node.operand)
+        if (isinstance(node, ast.Compare) and len(node.ops) == 1 and isinstance(node.left, ast.Name)
+                and self.env.get(node.left.id) is not None and self.env[node.left.id].init == "mask"
+                and not self.env[node.left.id].stores
+                and isinstance(node.comparators[0], ast.Constant) and node.comparators[0].value is None):
+            if isinstance(node.ops[0], ast.Is):
+                return not self.masked
+            if isinstance(node.ops[0], ast.IsNot):
+                return self.masked
+        raise ValueError("%s: unrecognised condition %s" % (self.f.name, ast.unparse(node)))
+
+    def value(self, node):
+        """object an expression evaluates to"""
+        if isinstance(node, ast.Name) and node.id in self.env:
+            return self.env[node.id]                       # alias, same object
+        if isinstance(node, ast.Call) and isinstance(node.func, ast.Name) and node.func.id == "table_lookup":
+            a = node.args
+            if node.keywords or not (3 <= len(a) <= 4) or not isinstance(a[0], ast.Name) or a[0].id not in self.env \
+                    or not isinstance(a[1], ast.Name):
+                raise ValueError("%s: unrecognised call %s" % (self.f.name, ast.unparse(node)))
+            border = _const_bool(a[2], "border value")
+            if len(a) == 3:
+                mode = -1
+            else:
+                it = a[3]
+                if isinstance(it, ast.Name) and it.id in self.env and self.env[it.id].init == "iterations" \
+                        and not self.env[it.id].stores:
+                    mode = -2
+                elif isinstance(it, ast.Constant) and isinstance(it.value, int) and not isinstance(it.value, bool) \
+                        and it.value >= 0:
+                    mode = it.value
+                else:
+                    raise ValueError("%s: unrecognised iterations argument %s" % (self.f.name, ast.unparse(it)))
+            self.seq += 1
+            self.calls.append((self.seq, self.env[a[0].id], a[1].id, border, mode))
+            return _Obj("<table_lookup result %d>" % self.seq)
+        for sub in ast.walk(node):
+            if isinstance(sub, ast.Call) and isinstance(sub.func, ast.Name):
+                raise ValueError("%s: unexpected call %s" % (self.f.name, ast.unparse(sub)))
+        return _Obj(self.text(node))
+
+    def block(self, stmts):
+        for st in stmts:
+            if self.ret is not None:
+                raise ValueError("%s: statement after return" % self.f.name)
+            if isinstance(st, ast.Expr) and isinstance(st.value, ast.Constant) and isinstance(st.value.value, str):
+                continue
+            if isinstance(st, (ast.Global, ast.Pass)):
+                continue
+            if isinstance(st, ast.If):
+                self.block(st.body if self.cond(st.test) else st.orelse)
+                if self.ret is not None:
+                    return
+                continue
+            if isinstance(st, ast.Return):
+                if st.value is None:
+                    raise ValueError("%s: bare return" % self.f.name)
+                self.ret = self.value(st.value)
+                return
+            if isinstance(st, ast.Assign) and len(st.targets) == 1:
+                t = st.targets[0]
+                if isinstance(t, ast.Name):
+                    self.env[t.id] = self.value(st.value)
+                    continue
+                if isinstance(t, ast.Subscript) and isinstance(t.value, ast.Name) and t.value.id in self.env:
+                    self.seq += 1
+                    val = st.value if isinstance(st.value, ast.Constant) else self.text(st.value)
+                    self.env[t.value.id].stores.append((self.seq, self.text(t.slice), val))
+                    continue
+            raise ValueError("%s: unrecognised statement %s" % (self.f.name, ast.unparse(st)[:80]))
+
+    def run(self):
+        self.block(self.f.body)
+        if self.ret is None:
+            raise ValueError("%s: path without return" % self.f.name)
+        return self
+
+
+def _wrapper_summary(fdef, tname):
+    """(border, mask fill or -1, mode) of one wrapper, from both paths of its body"""
+    op = fdef.name
+    if [a.arg for a in fdef.args.args][:2] != ["image", "mask"]:
+        raise ValueError("wrapper %s: unexpected parameters" % op)
+    res = {}
+    for masked in (False, True):
+        r = _WrapperRun(fdef, masked).run()
+        if len(r.calls) != 1:
+            raise ValueError("wrapper %s: %d table_lookup calls on the %s path" % (op, len(r.calls), "masked" if masked else "unmasked"))
+        seq, arg, table, border, mode = r.calls[0]
+        if table != tname:
+            raise ValueError("wrapper %s: uses table %s" % (op, table))
+        image = r.env["image"]
+        if image.init != "image" or image.stores:
+            raise ValueError("wrapper %s: rebinds or modifies its input image" % op)
+        if r.ret.init != "<table_lookup result %d>" % seq:
+            raise ValueError("wrapper %s: does not return the table_lookup result" % op)
+        if arg is image:
+            # the image itself goes in, nothing is restored: the mask (if any) is not taken into account
+            if r.ret.stores:
+                raise ValueError("wrapper %s: stores into the result without masking the input" % op)
+            fill = -1
+        else:
+            if not masked:
+                raise ValueError("wrapper %s: the unmasked path does not pass the image itself" % op)
+            if arg.init != "image.astype(bool).copy()" or len(arg.stores) != 1 or arg.stores[0][0] > seq \
+                    or arg.stores[0][1] != "~mask":
+                raise ValueError("wrapper %s: unrecognised masking of the input: %s %s" % (op, arg.init, arg.stores))
+            fill = _const_bool(arg.stores[0][2], "mask fill value") if not isinstance(arg.stores[0][2], str) else None
+            if fill is None:
+                raise ValueError("wrapper %s: mask fill value is not a constant" % op)
+            if len(r.ret.stores) != 1 or r.ret.stores[0][1] != "~mask" or r.ret.stores[0][2] != "image[~mask]":
+                raise ValueError("wrapper %s: unrecognised restore step %s" % (op, r.ret.stores))
+        res[masked] = (border, fill, mode)
+    if res[False][0] != res[True][0] or res[False][2] != res[True][2]:
+        raise ValueError("wrapper %s: masked and unmasked paths call table_lookup differently: %s" % (op, res))
+    if res[False][1] != -1:
+        raise ValueError("wrapper %s: unmasked path masks" % op)
+    return (res[True][0], res[True][1], res[True][2])
+
+
 def wrapper_meta(src):
-    """(border, maskfill or -1, mode) of every table wrapper, read from the AST of cpmorphology.py.
-    Fails closed on any shape other than the one the model was written for."""
+    """(border, maskfill or -1, mode) of every table wrapper, derived by symbolic evaluation of its body on the
+    unmasked and on the masked path (robust to early returns, hoisted or inlined sub-expressions, `not a is b` vs
+    `a is not b`, statement order that does not matter).  Fails closed on anything it cannot interpret."""
     tree = ast.parse(src)
     funs = {n.name: n for n in tree.body if isinstance(n, ast.FunctionDef)}
     res = {}
@@ -82,41 +247,7 @@ def wrapper_meta(src):
         f = funs.get(op)
         if f is None:
             raise ValueError("wrapper %s not found" % op)
-        calls = [c for c in ast.walk(f) if isinstance(c, ast.Call) and isinstance(c.func, ast.Name)]
-        tl = [c for c in calls if c.func.id == "table_lookup"]
-        other = sorted({c.func.id for c in calls} - {"table_lookup"})
-        if len(tl) != 1 or other or tl[0].keywords:
-            raise ValueError("wrapper %s: expected exactly one positional table_lookup call, found %d (%s)" % (op, len(tl), other))
-        a = tl[0].args
-        if not (3 <= len(a) <= 4) or not isinstance(a[0], ast.Name) or not isinstance(a[1], ast.Name) or a[1].id != tname:
-            raise ValueError("wrapper %s: unrecognised call %s" % (op, ast.unparse(tl[0])))
-        border = _const_bool(a[2], "border value")
-        if len(a) == 3:
-            mode = -1
-        elif isinstance(a[3], ast.Name) and a[3].id == "iterations":
-            mode = -2
-        elif isinstance(a[3], ast.Constant) and isinstance(a[3].value, int) and not isinstance(a[3].value, bool) and a[3].value >= 0:
-            mode = a[3].value
-        else:
-            raise ValueError("wrapper %s: unrecognised iterations argument %s" % (op, ast.unparse(a[3])))
-        subs = [s for s in ast.walk(f) if isinstance(s, ast.Assign) and isinstance(s.targets[0], ast.Subscript)]
-        texts = [ast.unparse(s) for s in subs]
-        if a[0].id == "image":
-            if subs:
-                raise ValueError("wrapper %s: unexpected stores %s" % (op, texts))
-            fill = -1
-        else:
-            if a[0].id != "masked_image" or len(subs) != 2 or texts[1] != "result[~mask] = image[~mask]" \
-                    or not texts[0].startswith("masked_image[~mask] = "):
-                raise ValueError("wrapper %s: unrecognised mask handling %s" % (op, texts))
-            fill = _const_bool(subs[0].value, "mask fill value")
-            # the rest of the body must be the known skeleton
-            body = ast.unparse(f)
-            for need in ("if mask is None:", "masked_image = image", "masked_image = image.astype(bool).copy()",
-                         "if not mask is None:", "return result"):
-                if need not in body:
-                    raise ValueError("wrapper %s: body lacks %r" % (op, need))
-        res[op] = (border, fill, mode)
+        res[op] = _wrapper_summary(f, tname)
     return res
 
 
@@ -446,6 +577,47 @@ def generate(ctx):
         t[~_CENTER] = False
         cases.append({"fn": "idx", "img": _rand_img(rng, H, W).astype(int).tolist(), "tab": _bits(t),
                       "b": int(rng.randint(2)), "it": int(rng.choice([1, 2, 3, -1, 0]))})
+    # (g) inputs larger than any plausible internal chunk, every path: 1100x3 / 3x1100 (dense kernel), 1100x2 / 1x1100
+    # (slicing path), 300x300 sparse; thorough: 600x600 sparse (model skipped there: the line-level model of the dense
+    # kernel is quadratic; the rule itself is still evaluated on the implementation's output)
+    big_shapes = [(1100, 3, 0.4), (3, 1100, 0.4), (1100, 2, 0.5), (1, 1100, 0.5), (300, 300, 0.004)]
+    if not ctx.quick():
+        big_shapes += [(600, 600, 0.002), (1100, 3, 0.05), (3, 1100, 0.9), (2, 1100, 0.3), (1100, 1, 0.5), (64, 1100, 0.01)]
+    combos = [("erosive", "bool"), ("extensive", "bool"), ("neither", "bool"), ("erosive", "float64"),
+              ("extensive", "int32"), ("builtin", "uint8")]
+    for n, (H, W, dens) in enumerate(big_shapes):
+        # quick: three of the six (table class, dtype) combinations per shape, rotating, so that every path is taken
+        for kind, dt in (combos if not ctx.quick() else [combos[(n + j) % 6] for j in (0, 2, 4)] if n % 2 == 0
+                         else [combos[(n + j) % 6] for j in (0, 2, 4)]):
+            img = rng.rand(H, W) < dens
+            img[0, 0] = img[-1, -1] = img[0, -1] = img[-1, 0] = True
+            if kind == "builtin":
+                t = _doc_tables()[str(rng.choice(["majority", "bridge", "thicken", "diag"]))]
+            else:
+                t = _kind_table(rng, kind)
+            c = _tl_case(rng, img, t, kind)
+            c["dt"] = dt
+            c["it"] = int(rng.choice([1, 2]))
+            c["lay"] = str(rng.choice(["C", "F", "strided"]))
+            plain = not ((kind == "erosive" and dt != "float64") or (kind == "extensive" and dt == "bool"))
+            if H * W > 100000 or (H * W > 50000 and plain):
+                c["nomodel"] = True
+                c["it"] = 1
+            cases.append(c)
+            ctx.count("large-input")
+    for op in (OPS if not ctx.quick() else [OPS[int(k)] for k in rng.choice(len(OPS), 5, replace=False)]):
+        H, W = (1100, 3) if rng.rand() < 0.5 else (3, 1100)
+        c = _op_case(rng, rng.rand(H, W) < 0.5, op)
+        if c["it"] == -1 or not _op_safe(c):
+            c["it"] = "default" if op in ("endpoints", "branchpoints") else 2
+        if _op_safe(c):
+            cases.append(c)
+            ctx.count("large-input")
+    cases.append({"fn": "tli", "img": (rng.rand(1100, 3) < 0.5).astype(int).tolist()})
+    cases.append({"fn": "tli", "img": (rng.rand(3, 1100) < 0.5).astype(int).tolist()})
+    t = _kind_table(rng, "erosive")
+    for (H, W) in ((1100, 3), (3, 1100), (1, 1100)):
+        cases.append({"fn": "idx", "img": (rng.rand(H, W) < 0.6).astype(int).tolist(), "tab": _bits(t), "b": int(rng.randint(2)), "it": 2})
     # (f) the table construction helpers
     for _ in range(ctx.n(150, 1500)):
         care = (rng.rand(9) < rng.choice([0.3, 0.7, 1.0])).astype(int).tolist()
@@ -694,7 +866,12 @@ def _run_grouped(ctx, cases, argf, idxs=None):
 
 def model(ctx, cases, outs):
     fc, _, own = _flat(cases)
-    r = _run_grouped(ctx, fc, _margs)
+    run = [n for n, c in enumerate(fc) if not c.get("nomodel")]
+    r = _run_grouped(ctx, fc, _margs, run)
+    for n, c in enumerate(fc):
+        if c.get("nomodel"):
+            r[n] = "skipped"
+            ctx.count("model-skipped:large-image")
     res = [None] * len(cases)
     for n, k in enumerate(own):
         if cases[k]["fn"] == "seq":
@@ -707,6 +884,8 @@ def model(ctx, cases, outs):
 
 
 def _compare1(case, out, m):
+    if m == "skipped" and not _bad(out):
+        return None
     if _bad(out):
         return "implementation raised/crashed: %s" % (str(out)[:300],)
     if isinstance(m, dict):
@@ -912,6 +1091,8 @@ def shrink_candidates(case):
     def with_img(new, mask=None):
         c = dict(case)
         c["img"] = new
+        if len(new) * len(new[0]) <= 100000:
+            c.pop("nomodel", None)
         if fn == "op" and case.get("mask") is not None:
             c["mask"] = mask
         return c
